@@ -30,7 +30,10 @@ fn fresh(ctx: &mut Ctx, input: String) {
         .with_user_input(InputStreamConfig::string(input))
         .with_user_output(OutputStreamConfig::memory())
         .with_user_error(OutputStreamConfig::memory());
-    ctx.machine = Some(MachineBuilder::default().with_streams(streams).build());
+    let mut m = MachineBuilder::default().with_streams(streams).build();
+    // mark the machine: after a panic in a later Q line the harness silently builds a default machine
+    let _ = m.run_query("assertz('$sv_tlm').").count();
+    ctx.machine = Some(m);
     READY.with(|r| r.set(true));
 }
 
@@ -46,6 +49,21 @@ pub fn dispatch(ctx: &mut Ctx, op: &str, f: &[&str]) -> Option<String> {
                 return Some("no-toplevel-machine".into());
             }
             READY.with(|r| r.set(false));
+            let marked = {
+                let m = ctx.machine.as_mut().unwrap();
+                matches!(
+                    catch_unwind(AssertUnwindSafe(|| {
+                        m.run_query("catch('$sv_tlm', _, fail).")
+                            .next()
+                            .map_or(false, |a| matches!(a, Ok(scryer_prolog::LeafAnswer::True)))
+                    })),
+                    Ok(true)
+                )
+            };
+            if !marked {
+                ctx.machine = None;
+                return Some("no-toplevel-machine".into());
+            }
             let keys = unescape(arg(2));
             let fallback = match arg(3) {
                 "-" | "" => None,
